@@ -318,12 +318,14 @@ class Vector():
 			dtype = infer_dtype([default_element])
 			if typesafe and default_element is not None:
 				dtype = dtype.with_nullable(False)
-			return cls([default_element for _ in range(length)], dtype=dtype)
+			# (Vector, not cls: called on a typed vector - Vector([1, 2]).new(0.5, 2) - cls is _Int, whose
+			# constructor hands back a _Float for float data; Python then skips __init__ and the object stays hollow)
+			return Vector([default_element for _ in range(length)], dtype=dtype)
 		# (no elements: the dtype of the element, by the same rule as for any other length)
 		dtype = infer_dtype([default_element])
 		if typesafe and default_element is not None:
 			dtype = dtype.with_nullable(False)
-		return cls(dtype=dtype)
+		return Vector(dtype=dtype)
 
 
 	def copy(self, new_values = None, name=...):
